@@ -65,7 +65,8 @@ CLAIMED = {
    note="Trusted: TLC, the abstract->Python value encoder, Python's own ==. Don't-cares: numerically equal scalars of "
         "different numeric type, array typecode / deque.maxlen / default_factory, pickle-fallback objects with differing "
         "pickles, pickle bytes of as-is frozensets."
-        " Also: memoize call keys (Call values, binding rules, MemoTotal/MemoSound/MemoComplete; universe closed under packing f(t, d) / f(*t, **d)).",
+        " Also: memoize call keys (Call values, binding rules, MemoTotal/MemoSound/MemoComplete; universe closed under packing f(t, d) / f(*t, **d))."
+        " Also: the representation of pandas labels (RangeIndex vs materialised) as an encoder attribute that Eq ignores.",
    technique="TLA+ value/key model checked by TLC; universe export; pairwise conformance in two interpreters"),
  "C05": dict(
    category="model_checking", design_ref="6 C05",
@@ -91,7 +92,8 @@ CLAIMED = {
         "the real pipefunc.map.MapSpec (from_string/str/shape/output_key/input_keys/rename/add_axes/rejections) and compared; "
         "returned ASTs for open outcomes are judged by TLC.",
    note="Trusted: TLC, the token renderer (tokens -> string with whitespace). Don't-cares: duplicate array names, repeated "
-        "index inside one array, rank-0 arrays, text outside the grammar (rejected or accepted as well-formed).",
+        "index inside one array, rank-0 arrays, text outside the grammar (rejected or accepted as well-formed)."
+        " Also: MapSpec objects over histories of operations (LawStep: answers independent of earlier calls on the object or its ancestor) and arrow-count mutants (LawArrow).",
    technique="TLA+ MapSpec semantics with laws checked by TLC; universe export compared against MapSpec"),
  "C04": dict(
    category="model_checking", design_ref="6 C04",
@@ -171,7 +173,8 @@ CLAIMED = {
    note="Don't-cares: order with non-item-order dims, Sweep({}) as a product operand, constants never override item keys, "
         "mismatched zips only checked to raise. Known findings F21 (product loses a later operand's zip), F71 (filtered_sweep "
         "keeps duplicates for repeated values)."
-        " Also: sum expressions of any nesting (+, combine, MultiSweep(...): LawSumExpr) and object histories of sums (LawHistory: no existing object changes).",
+        " Also: sum expressions of any nesting (+, combine, MultiSweep(...): LawSumExpr) and object histories of sums (LawHistory: no existing object changes)."
+        " Also: LawAddDerivers and object histories with products / add_derivers (LawObjHistory).",
    technique="TLA+ sweep algebra checked by TLC; exhaustive universe export compared against the sweep API"),
  "C19": dict(
    category="model_checking", design_ref="6 C19",
